@@ -664,31 +664,105 @@ def hashmap_readers(run: Run, model: PyModel, rid: str) -> None:
 
 
 def removal_internals(run: Run, model: PyModel, rid: str) -> None:
-    """remove_file_by_name (helpers folded in): every row reached from the page -- notes, H1..H4 sections, blocks, the page itself --
-    is deleted unconditionally: each loop over `.notes`, `.h1s` .. `.h4s` and over the collected blocks deletes its element."""
-    from .flatten import flat_info
+    """Abstract run of SQLRepo.remove_file_by_name on a virtual row graph (a page with two notes, tags and property links -- some
+    shared with other notes, some not -- and H1 > H2 > H3 > H4 sections with blocks at every level): every row that belongs to the
+    page is deleted exactly once (notes, sections, blocks, the page, its property links), tags / properties only when no other note
+    uses them, and a page that is not indexed is a no-op returning None."""
+    from .absint import Interp, Raised, State
+    from .absval import HObj, Opaque, Ref
 
-    fr = flat_info(model, f"{REPO}.SQLRepo.remove_file_by_name")
-    deleted = {ast.unparse(c.args[0]) for c in ast.walk(fr.node) if isinstance(c, ast.Call) and isinstance(c.func, ast.Attribute) and c.func.attr == "delete" and c.args}
-    need = {}
-    page_expr = None
-    for l in ast.walk(fr.node):
-        if isinstance(l, ast.For) and isinstance(l.target, ast.Name):
-            it = ast.unparse(l.iter)
-            for suffix, what in ((".notes", "notes"), ("h1s", "H1 sections"), (".h2s", "H2 sections"), (".h3s", "H3 sections"), (".h4s", "H4 sections"), ("blocks", "blocks")):
-                if it.endswith(suffix) or it.split("__")[0].endswith(suffix):
-                    need.setdefault(what, []).append((l.target.id, l))
-            if it.endswith(".notes") and isinstance(l.iter, ast.Attribute):
-                page_expr = ast.unparse(l.iter.value)
-    for what in ("notes", "H1 sections", "H2 sections", "H3 sections", "H4 sections", "blocks"):
-        loops = need.get(what, [])
-        def direct(v, l):
-            """`<session>.delete(v)` is a statement of the loop body itself (not under a condition)."""
-            return any(isinstance(s2, ast.Expr) and isinstance(s2.value, ast.Call) and isinstance(s2.value.func, ast.Attribute) and s2.value.func.attr == "delete" and s2.value.args
-                       and ast.unparse(s2.value.args[0]) == v for s2 in l.body)
+    Q = f"{REPO}.SQLRepo.remove_file_by_name"
+    fq = model.func(Q)
 
-        ok = bool(loops) and any(direct(v, l) and not any(isinstance(x, (ast.Continue, ast.Break)) for x in ast.walk(l)) for v, l in loops)
-        run.check(rid, f"every row of the removed page's {what} is deleted", ok, "SQLRepo.remove_file_by_name", f"{what}: loops {[v for v, _ in loops]} deleted {sorted(deleted)[:8]}",
-                  f"remove_file_by_name does not unconditionally delete the {what} of the page: stale rows stay behind and show up in queries / get duplicated", file=FILE_R, node=fr.node)
-    run.check(rid, "the page row itself is deleted", page_expr is not None and page_expr in deleted, "SQLRepo.remove_file_by_name", "page row deletion",
-              "remove_file_by_name leaves the page row behind", file=FILE_R, node=fr.node)
+    def run_once(indexed: bool):
+        st = State()
+        names: dict = {}
+
+        def O(tag, **f):
+            r = st.alloc(HObj("obj", cls="vrow", fields=dict(_v=tag, **f)))
+            names[r.addr] = tag
+            return r
+
+        def L(*xs):
+            return st.alloc(HObj("list", items=list(xs)))
+
+        shared_tag = O("tag:shared", notes=None)
+        own_tag = O("tag:own", notes=None)
+        prop_shared = O("prop:shared", links=None)
+        prop_own = O("prop:own", links=None)
+        n1 = O("note:1")
+        n2 = O("note:2")
+        other = O("note:other-page")
+        st.obj(shared_tag).fields["notes"] = L(n1, other)
+        st.obj(own_tag).fields["notes"] = L(n1)
+        pl1 = O("plink:1", prop=prop_shared)
+        pl2 = O("plink:2", prop=prop_own)
+        st.obj(prop_shared).fields["links"] = L(pl1, O("plink:other"))
+        st.obj(prop_own).fields["links"] = L(pl2)
+        for n, pls in ((n1, L(pl1, pl2)), (n2, L())):
+            st.obj(n).fields.update(property_links=pls, areas=L(shared_tag) if n is n1 else L(), contexts=L(own_tag) if n is n1 else L(), people=L(), projects=L())
+        b = [O(f"block:{i}") for i in range(5)]
+        h4 = O("h4", blocks=L(b[4]))
+        h3 = O("h3", blocks=L(b[3]), h4s=L(h4))
+        h2 = O("h2", blocks=L(b[2]), h3s=L(h3))
+        h1 = O("h1", blocks=L(b[1]), h2s=L(h2))
+        h0 = O("h0", blocks=L(b[0]), h2s=L())
+        page = O("page", notes=L(n1, n2), h1s=L(h0, h1), path="A.zo")
+
+        def meth(I, recv, name, args, kwargs, s, node):
+            if recv.cls == "vsql":
+                if name == "exec":
+                    return [(Opaque("vresult"), s)]
+                if name == "delete":
+                    a0 = args[0]
+                    s.trace.append(("delete", names.get(a0.addr, "?") if isinstance(a0, Ref) else repr(a0)))
+                    return [(None, s)]
+                if name in ("commit", "flush", "add", "refresh"):
+                    s.trace.append((name,))
+                    return [(None, s)]
+                return [(Opaque("vsql." + name), s)]
+            if recv.cls == "vresult":
+                if name in ("first", "one_or_none"):
+                    return [(page if indexed else None, s)]
+                if name == "all":
+                    return [(L(page) if indexed else L(), s)]
+            if recv.cls == "vconv":
+                return [(Opaque("entity-page"), s)]
+            if recv.cls.startswith("ext:"):
+                is_log = ("ogger" in recv.cls or "logrus" in recv.cls) and name in ("debug", "info", "warning", "warn", "error", "exception", "critical", "log", "bind")
+                return [(None if is_log else Opaque("vstmt"), s)]
+            if recv.cls == "vstmt":
+                return [(Opaque("vstmt"), s)]
+            return None
+
+        probes = {"method:*": meth, "call:*": lambda I, fv, args, kwargs, s, node: [(Opaque("vstmt"), s)] if fv.cls.startswith("ext:") else None,
+                  "classattr": lambda I, v, name, s: [(Opaque("vcol"), s)], "compare": lambda I, op, l, r, s: Opaque("vcond")}
+        I = Interp(model, probes=probes, max_states=4000)
+        repo = st.alloc(HObj("obj", cls=f"{REPO}.SQLRepo", fields=dict(_session=Opaque("vsql"), _page_converter=Opaque("vconv"), _zdir=Opaque("vpath", "/Z"), _verbose=0, seen_pages=L())))
+        return I.run_function(Q, [repo, "A.zo"], st=st)
+
+    try:
+        res = run_once(True)
+        res_missing = run_once(False)
+    except Exception as e:
+        run.undecided(rid, "SQLRepo.remove_file_by_name", f"cannot interpret abstractly: {type(e).__name__}: {str(e)[:120]}")
+        return
+    must = {"note:1", "note:2", "h0", "h1", "h2", "h3", "h4", "block:0", "block:1", "block:2", "block:3", "block:4", "page", "plink:1", "plink:2", "prop:own", "tag:own"}
+    never = {"note:other-page", "tag:shared", "prop:shared", "plink:other"}
+    for v, s in res:
+        if isinstance(v, Raised) or s.imprecise:
+            run.undecided(rid, "SQLRepo.remove_file_by_name", (f"raises {v.exc}" if isinstance(v, Raised) else "; ".join(s.imprecise[:2])))
+            continue
+        deleted = [t[1] for t in s.trace if t[0] == "delete"]
+        missing = sorted(must - set(deleted))
+        wrong = sorted(set(deleted) & never)
+        twice = sorted({d for d in deleted if deleted.count(d) > 1})
+        run.check(rid, "removing a page deletes every row that belongs to it (notes, H1..H4 sections, blocks, property links, the page) exactly once", not missing and not twice, "SQLRepo.remove_file_by_name",
+                  f"missing {missing} twice {twice}", f"remove_file_by_name leaves {missing} behind (deleted twice: {twice}): stale rows show up in queries or are duplicated when the page is added again", file=FILE_R, node=fq.node)
+        run.check(rid, "rows shared with other pages (tags / properties still in use) are kept", not wrong, "SQLRepo.remove_file_by_name", f"deleted {wrong}",
+                  f"remove_file_by_name also deletes {wrong}, which other pages' notes still use", file=FILE_R, node=fq.node)
+        run.check(rid, "the removed page is handed back", v is not None, "SQLRepo.remove_file_by_name", "returns None for an indexed page", "remove_file_by_name returns None although the page was indexed (the caller then treats it as new: no modify dates are stamped)", file=FILE_R, node=fq.node)
+    for v, s in res_missing:
+        ok = v is None and not isinstance(v, Raised) and not [t for t in s.trace if t[0] == "delete"]
+        run.check(rid, "removing a page that is not indexed is a no-op returning None", ok and not s.imprecise, "SQLRepo.remove_file_by_name", f"result {v!r}", f"remove_file_by_name on an unknown page gives {v!r} / deletes rows", file=FILE_R, node=fq.node)
+    run.floor("abstract runs of remove_file_by_name", len(res) + len(res_missing), 2)
